@@ -219,10 +219,13 @@ def parse_nums(txt):
 # ----------------------------------------------------------------------------------------------
 # Translator validation: generated machine vs Amaranth's simulator
 # ----------------------------------------------------------------------------------------------
-def validate_translation(target, traces, workdir):
+def validate_translation(target, traces, workdir, outs=None):
     """Run pysim and the generated Coq machine on the same traces; any difference is a harness
-    fault (the translator or Netlist.v misrepresents Amaranth), not a property violation."""
-    outs = target.simulate(traces)
+    fault (the translator or Netlist.v misrepresents Amaranth), not a property violation.
+    `outs`: simulator outputs if already computed (simulation is done serially by the driver: building
+    LUNA objects and running pysim is not thread-safe; only the coqc evaluation runs in parallel)."""
+    if outs is None:
+        outs = target.simulate(traces)
     ins_packed = [[target.pack_in(c) for c in tr] for tr in traces]
     outs_packed = [[target.pack_out(o) for o in tr] for tr in outs]
     M = target.modname
